@@ -1033,6 +1033,34 @@ def rule_r13(repo, run, T):
                           "unterminated or dangling preprocessor conditional" % (g, o, cl), m.loc(fn),
                           sample=dict(function=q, test=g, opens=o, closes=cl))
     run.floor(R, "guarded open/close groups", n, 10)
+    # block openers and closers that one function emits as separate lines (`abstract interface` ... `end interface`,
+    # `interface` ... `end interface`, `extern "C" {` ... `}`) are emitted under the same conditions
+    PAIRS = [("abstract interface", r"^[-+]*abstract interface\b", r"^[-+]*end interface\b"),
+             ("interface", r"^[-+]*interface\b", r"^[-+]*end interface\b"),
+             ("extern C", r'extern "C" \{', r"^\}\s*(//.*)?$")]
+    k = 0
+    for mn in ("wrapf", "wrapc", "wrapp", "wrapl", "whelpers"):
+        m = repo.module(mn)
+        for q, fn in sorted(m.functions().items()):
+            consts = [c for c in ast.walk(fn) if isinstance(c, ast.Constant) and isinstance(c.value, str)
+                      and not isinstance(getattr(c, "_parent", None), ast.Expr)]
+            for tag, op, cl in PAIRS:
+                opens = [c for c in consts if re.search(op, c.value, re.M) and not re.search(cl, c.value, re.M)]
+                closes = [c for c in consts if re.search(cl, c.value, re.M) and not re.search(op, c.value, re.M)]
+                if tag == "interface":
+                    # `abstract interface` has its own pair; count its `end interface` lines there
+                    if any(re.search(PAIRS[0][1], c.value, re.M) for c in consts):
+                        continue
+                if not opens or not closes:
+                    continue
+                k += 1
+                ga = sorted(sorted(pyflow.path_atoms(c, stop=fn, seg=m.seg)) for c in opens)
+                gb = sorted(sorted(pyflow.path_atoms(c, stop=fn, seg=m.seg)) for c in closes)
+                run.check(R, "%s.%s:%s" % (mn, q, tag), ga == gb,
+                          "`%s` is opened under %s but closed under %s: with the conditions disagreeing the block is left open "
+                          "or closed twice (the module does not compile)" % (tag, ga, gb), m.loc(opens[0]),
+                          sample=dict(function=q, block=tag, opens=ga, closes=gb))
+    run.floor(R, "open/close line pairs", k, 6)
 
 
 def rule_r14(repo, run, T):
@@ -1085,6 +1113,72 @@ def rule_r14(repo, run, T):
     conds = [(str(mm.seg(t)), pol) for t, pol in pyflow.dominating_tests(wu[0], stop=f)]
     run.check(R, "main.main_with_args:utility-guard", not any("wrap.c" == t and pol for t, pol in conds),
               "write_impl_utility must also run when only Fortran is wrapped", mm.loc(wu[0]))
+
+
+def rule_r19(repo, run, T):
+    R = run.rule("C05.R19", "what the type table and the emitters provide for a type is what its declarations use: Fortran kinds "
+                            "named by f_type/f_kind/f_cast are imported by f_module, and the headers registered for a C wrapper "
+                            "are those of the type that appears in the prototype")
+    types = T["types"]
+    n = 0
+    def kinds(t, flds):
+        out = set()
+        for fld in flds:
+            v = t.get(fld)
+            if v:
+                out.update(re.findall(r"\bC_[A-Z0-9_]+\b", str(v)))
+        return out
+
+    def provided(mod):
+        have = set()
+        if isinstance(mod, dict):
+            for k_, v in mod.items():
+                if str(k_) == "iso_c_binding":
+                    have.update(str(x) for x in (v or []))
+        return have
+    for name, t in sorted(types.types.items()):
+        fm, fcm = t.get("f_module"), t.get("f_c_module")
+        obligations = []
+        if fm:
+            # wrapper bodies declare with f_type / f_kind / f_cast and import f_module
+            obligations.append(("f_module", kinds(t, ("f_type", "f_kind", "f_cast")), provided(fm)))
+        # interfaces declare with f_c_type (else f_type) and import `f_c_module or f_module`
+        imod = fcm or fm
+        if imod:
+            obligations.append(("f_c_module" if fcm else "f_module(interface)",
+                                kinds(t, ("f_c_type",)) if t.get("f_c_type") else kinds(t, ("f_type",)), provided(imod)))
+        for modfld, need, have in obligations:
+            if not need:
+                continue
+            n += 1
+            run.check(R, "typemap[%s].%s" % (name, modfld), need <= have,
+                      "%s imports %s from iso_c_binding but the Fortran declarations of the type use %s: `use iso_c_binding, "
+                      "only :` lacks %s (gfortran: symbol has no IMPLICIT type)" % (modfld, sorted(have), sorted(need),
+                                                                                  sorted(need - have)), types.loc(name))
+    run.floor(R, "typemaps with Fortran kinds", n, 25)
+    wc = repo.module("wrapc")
+    wf = wc.func("Wrapc.wrap_function")
+    regs = [a for a in ast.walk(wf) if isinstance(a, ast.Assign) and isinstance(a.targets[0], ast.Subscript)
+            and pyflow.is_name(a.targets[0].value, "header_typedef_nodes") and isinstance(a.value, ast.Name)]
+    k = 0
+    for a in regs:
+        v = a.value.id
+        # the definition of v that reaches the registration in its own statement list
+        seq = getattr(a._parent, "body", None)
+        if not isinstance(seq, list) or not any(x is a for x in seq):
+            continue
+        idx = [i for i, x in enumerate(seq) if x is a][0]
+        defs = [(i, x) for i, x in enumerate(seq) if isinstance(x, ast.Assign)
+                and any(v in [n_.id for n_ in ast.walk(t_) if isinstance(n_, ast.Name)] for t_ in x.targets) and x is not a]
+        later = [x for i, x in defs if i > idx and "lookup_c_statements" in wc.seg(x.value)]
+        if not defs:
+            continue
+        k += 1
+        run.check(R, "wrapc.Wrapc.wrap_function:header_typedef_nodes[%s]" % v, not later,
+                  "the typemap registered for the wrapper header is `%s` as it is *before* lookup_c_statements() replaces it "
+                  "by the type that appears in the prototype (the element type of a std::vector): the header of that type "
+                  "(<stdint.h> for int64_t) is never included" % v, wc.loc(a))
+    run.floor(R, "header registrations of argument types", k, 1)
 
 
 def rule_r15(repo, run, T):
@@ -1276,6 +1370,7 @@ def run(repo, run, tier):
     rule_r16(repo, run, T)
     rule_r17(repo, run, T)
     rule_r18(repo, run, T)
+    rule_r19(repo, run, T)
     run.assumptions.extend([
         "field universe is an over-approximation (any attribute store / Scope keyword in the emitter's "
         "modules defines the field): a report means no assignment exists at all",
